@@ -177,11 +177,13 @@ Definition has_bb (L : circuit) : bool :=
   existsb (λ o, existsb (λ n, match L !! n with Some i => is_bb (n_ty i) | None => false end) (elements (tfi_star L o)))
           (elements (outputs L)).
 
-Definition minimal_supergates (L : circuit) : res (list (string * Circuit)) :=
+(* every supergate of every output cone, duplicates merged (before the minimal-cover filter) *)
+Definition all_supergates (L : circuit) : res (list Circuit) :=
   if has_bb L then Raise NotImplementedError else
   match mapM (cone_supergates L) (elements (outputs L)) with None => OutOfFuel | Some per_cone =>
-  match dedupe (mjoin per_cone) [] with None => BadOrder | Some all =>
-  match keyed (minimal_cover all) with None => BadOrder | Some m => Ok m end end end.
+  match dedupe (mjoin per_cone) [] with None => BadOrder | Some all => Ok all end end.
+Definition minimal_supergates (L : circuit) : res (list (string * Circuit)) :=
+  rbind (all_supergates L) (λ all, match keyed (minimal_cover all) with None => BadOrder | Some m => Ok m end).
 
 (* supergates(c) with L = limit_fanin(c, 2) *)
 Definition supergates (L : circuit) : res (list Circuit) :=
